@@ -25,6 +25,42 @@ class C19(Spec):
             "get-safe, remove and snapshots, with a watcher; the admin database ($admin, newer by construction) and a database restored without metadata are covered by corpus cases; "
             "seeded random sequences over 2 keys. non-trivial = at least one stale versioned write (resolved, not refused); distinct by trace hash")
 
+    def extra_stage(self, tier, seed):
+        """two clients at once on a newer database: every write accepted, the stored value is that of one of the two orders, versions grow"""
+        from vlib import sched
+        base = SETUP + ["C 1 set a 0"]
+        tail = ["C 1 get-safe a", "C 2 get-safe a"]
+        P = [("stale-cas-vs-plain", base, (1, "set-safe a 0 A"), (2, "set a B"), tail),
+             ("stale-cas-vs-stale-cas", base + ["C 1 set a 1"], (1, "set-safe a 0 A"), (2, "set-safe a 0 B"), tail),
+             ("cas-vs-cas-current", base, (1, "set-safe a 1 A"), (2, "set-safe a 1 B"), tail),
+             ("plain-vs-plain", base, (1, "set a A"), (2, "set a B"), tail),
+             ("plain-vs-remove", base, (1, "set a A"), (2, "remove a"), tail)]
+        def newer(name, o, sch, trace):
+            """what C19 promises of two overlapping writes (linearizability is NOT promised: the older change — by issue time — may lose to a
+            change applied before it): nothing refused, the stored value is one of the two, the version grew, and the highest-versioned
+            notification the watcher holds is the stored value"""
+            fs = []
+            for r in (o[0], o[1]):
+                if r.startswith("R verr") or r.startswith("R error") or r.startswith("R PANIC"):
+                    fs.append(Failure(f"newer-write-refused-under-interleaving:{name}", f"schedule {sch}: reply {r!r}"))
+            st = {m.group(1): (int(m.group(2)), m.group(3), m.group(4)) for d in o[4] for m in [re.match(r"D k t (\S+) ver=(-?\d+) st=(\w) .* v=(.*)", d)] if m}
+            if "a" in st:
+                ver, status, val = st["a"]
+                allowed = {"A", "B"} | ({"<Empty>"} if "remove" in name else set())
+                if status != "D" and val not in allowed: fs.append(Failure(f"stored-value-is-neither-write:{name}", f"schedule {sch}: stored {val!r} v{ver}"))
+                if "remove" not in name and not ver > 0: fs.append(Failure(f"newer-version-not-growing-under-interleaving:{name}", f"schedule {sch}: version {ver} after two accepted writes (it was 0 or 1 before)"))
+                best = None
+                for sid, lines in o[2]:
+                    if sid != 4: continue
+                    for l in lines:
+                        t = core.unesc(l).decode("utf-8", "replace").rstrip("\n").split(" ", 3)
+                        if t[0] == "changed-version" and t[1] == "a" and len(t) == 4:
+                            if best is None or int(t[2]) >= best[0]: best = (int(t[2]), t[3])
+                if status != "D" and "remove" not in name and (best is None or core.esc(best[1].encode()) != val):
+                    fs.append(Failure(f"watcher-not-current-under-interleaving:{name}", f"schedule {sch}: stored {val!r} v{ver}, the watcher's highest-versioned notification is {best}"))
+            return fs
+        return sched.stage("C19", P, tier, seed, parts=(), extra_oracle=newer)
+
     def corpus(self):
         return [("restored-without-metadata", ["RESET", "SESS 1", "C 1 auth adm pw", "C 1 create-db t tok", "C 1 use-db t tok", "C 1 set a 1", "C 1 set a 2",
                                                "C 1 snapshot false", "SNAP", "DELMETA t", "RESTART", "SESS 1", "C 1 auth adm pw", "C 1 use-db t tok",
